@@ -1018,6 +1018,10 @@ func runC08(c *Cfg) {
 			}
 		}
 		if w > 1 {
+			// the pool sits idle for a while (before its first task, between rounds): all w workers are still there afterwards
+			pcs = append(pcs, &PoolCase{Family: "pool-limit-after-idle", Workers: w, Tasks: 2 * w, Submitters: 1, Rounds: 3, Gated: true, Policy: "first", IdleMs: 650, EarlyWait: 1})
+		}
+		if w > 1 {
 			// hundreds of quick tasks first (workers going to sleep and being woken over and over), then tasks that all block:
 			// every one of the w workers still takes one
 			pcs = append(pcs, &PoolCase{Family: "pool-limit-after-churn", Workers: w, Tasks: 2 * w, Submitters: 1, Rounds: 4, Gated: true, Policy: "last", PreTasks: 300})
